@@ -296,6 +296,11 @@ def crash(entry, e, extra=""):
     return "C04/%s/%s%s@%s" % (entry, extra, exc_name(e), exc_site(e))
 
 
+def show(text):
+    """repr of an input, with long digit runs abbreviated."""
+    return repr(text).replace(BIGNUM, "<1 x %d>" % len(BIGNUM))
+
+
 def describe(e):
     return "%s: %s" % (exc_name(e), str(e)[:200])
 
@@ -441,7 +446,7 @@ def do_name_text(text, origin, codec):
 
 def do_ttl_text(text):
     st, v = attempt(lambda: dns.ttl.from_text(text))
-    what = "dns.ttl.from_text(%r)" % (text,)
+    what = "dns.ttl.from_text(%s)" % (repr(text) if len(text) < 60 else "%r...(%d chars)" % (text[:20], len(text)),)
     if st == "hang":
         return "hang", [("C04/ttl-text/hang@%s" % v, what + " did not finish in %g CPU-seconds" % WATCHDOG_S)]
     if st == "exc":
@@ -449,7 +454,8 @@ def do_ttl_text(text):
             return exc_name(v), [(crash("ttl-text", v), what + " raises " + describe(v))]
         return exc_name(v), []
     if not isinstance(v, int) or not 0 <= v <= 0xFFFFFFFF:
-        return "ok", [("C04/ttl-text/value-not-renderable", "%s returned %r, not a 32-bit TTL" % (what, v))]
+        shown = "a %d-bit integer" % v.bit_length() if isinstance(v, int) else repr(v)[:80]
+        return "ok", [("C04/ttl-text/value-not-renderable", "%s returned %s, not a 32-bit TTL" % (what, shown))]
     return "ok", []
 
 
@@ -460,7 +466,7 @@ _RDOPTS = {"abs": (None, True), "org": (ORIGIN, False), "rel": (ORIGIN, True)}
 def do_rdata_text(cls, typ, text, opt):
     origin, relativize = _RDOPTS[opt]
     st, v = attempt(lambda: dns.rdata.from_text(cls, typ, text, origin=origin, relativize=relativize))
-    what = "dns.rdata.from_text(%s, %s, %r, %s)" % (cls, typ, text, opt)
+    what = "dns.rdata.from_text(%s, %s, %s, %s)" % (cls, typ, show(text), opt)
     if st == "hang":
         return "hang", [("C04/rdata-text/hang@%s" % v, what + " did not finish in %g CPU-seconds" % WATCHDOG_S)]
     if st == "exc":
@@ -521,8 +527,8 @@ def do_zone_text(text, origin, zopt):
     st, v = attempt(lambda: dns.zone.from_text(
         real, origin=origin if give_origin else None, relativize=rel, zone_factory=factory,
         allow_include=inc, check_origin=chk, allow_directives=_DIRECTIVES[directives]))
-    what = "dns.zone.from_text(%r, origin=%s, relativize=%s, check_origin=%s, allow_include=%s, %s, directives=%s)" % (
-        text, origin if give_origin else None, rel, chk, inc, fac, directives)
+    what = "dns.zone.from_text(%s, origin=%s, relativize=%s, check_origin=%s, allow_include=%s, %s, directives=%s)" % (
+        show(text), origin if give_origin else None, rel, chk, inc, fac, directives)
     if st == "hang":
         return "hang", [("C04/zone-text/hang@%s" % v, what + " did not finish in %g CPU-seconds" % WATCHDOG_S)]
     if st == "exc":
@@ -546,7 +552,7 @@ def _render_rrsets(rrsets):
 
 def do_rrsets_text(text, kw):
     st, v = attempt(lambda: dns.zonefile.read_rrsets(text, **kw))
-    what = "dns.zonefile.read_rrsets(%r, %s)" % (text, ", ".join("%s=%r" % kv for kv in sorted(kw.items())))
+    what = "dns.zonefile.read_rrsets(%s, %s)" % (show(text), ", ".join("%s=%r" % kv for kv in sorted(kw.items())))
     if st == "hang":
         return "hang", [("C04/rrsets-text/hang@%s" % v, what + " did not finish in %g CPU-seconds" % WATCHDOG_S)]
     if st == "exc":
@@ -572,8 +578,8 @@ def do_msg_text(text, mopt):
     give_origin, one, rel = mopt
     st, v = attempt(lambda: dns.message.from_text(text, one_rr_per_rrset=one,
                                                   origin=ORIGIN if give_origin else None, relativize=rel))
-    what = "dns.message.from_text(%r, origin=%s, one_rr_per_rrset=%s, relativize=%s)" % (
-        text, "example." if give_origin else None, one, rel)
+    what = "dns.message.from_text(%s, origin=%s, one_rr_per_rrset=%s, relativize=%s)" % (
+        show(text), "example." if give_origin else None, one, rel)
     if st == "hang":
         return "hang", [("C04/msg-text/hang@%s" % v, what + " did not finish in %g CPU-seconds" % WATCHDOG_S)]
     if st == "exc":
@@ -678,7 +684,8 @@ def strings_upto(alpha, n):
 
 _TOKEN_RE = re.compile(r'"(?:\\.|[^"\\])*"|(?:\\.|[^\s"])+')
 
-TOKEN_REPL = ['""', "\\", "\\#", "-1", "256", "65536", "4294967296", "x", "nan", "1e999", "\\300", "(", ")", ";"]
+BIGNUM = "1" * 4400  # more digits than CPython's int<->str conversion limit (4300)
+TOKEN_REPL = ['""', "\\", "\\#", "-1", "256", "65536", "4294967296", "x", "nan", "1e999", "\\300", "(", ")", ";", BIGNUM]
 ZONE_TOKEN_REPL = TOKEN_REPL + ["@", "$TTL", "$ORIGIN", "$INCLUDE", "$GENERATE", "IN", "CH", "ANY", "1-2", "a\\300"]
 MSG_TOKEN_REPL = TOKEN_REPL + ["@", "XX", "FLAG16", "FLAG77", "IN", "NONE", "ANY", "UPDATE", "99", "a\\300"]
 CHARS_Q = ["\\", '"', " ", "(", ")", ";", "\n", ".", "@", "$", "0", "9", "é"]
@@ -691,11 +698,12 @@ JUNK_LINES = ['""', '"" 300 IN A 10.0.0.1', '"', "(", ")", "\\", "@", "$", "$TTL
               "$GENERATE 1-2 a$ A 10.0.0.${0,2,n}", "$GENERATE 1-2 a$ 1x IN A 10.0.0.$", "$GENERATE 1-2 \"\" A 10.0.0.$",
               "$GENERATE 1-2 a$ TXT \"", "$UNICODE", "$UNICODE 2003 x \"", "$FOO", "$ttl 5", " ", " A", "x CH A 1 2",
               "x TYPE0 \\# 0", "x 4294967296 A 10.0.0.1", "x A", "example. 5 IN SOA . . 1 2 3 4 5", "x CNAME y",
-              "@ CNAME y"]
+              "@ CNAME y", "$TTL " + BIGNUM, "$GENERATE 1-2 a${" + BIGNUM + "} A 10.0.0.$"]
 MSG_JUNK_LINES = ['""', '"', "(", "\\", "id", "id 65536", "id x", "flags XX", "flags FLAG16", "edns 256", "edns -1",
                   "eflags XX", "payload 65536", "opcode 16", "opcode XX", "rcode 4096", "rcode XX", "foo 1", ";QUESTION",
                   ";ANSWER", ";ZONE", ";BOGUS", "a. 4294967296 IN A 10.0.0.1", "a. -1 IN A 10.0.0.1", "a. IN OPT",
-                  "a. 0 IN TSIG x", "a. 0 ANY TSIG", " A 1.2.3.4", "a. A", "a. 5 NONE ANY", "a. 1 IN TYPE0 \\# 0", ""]
+                  "a. 0 IN TSIG x", "a. 0 ANY TSIG", " A 1.2.3.4", "a. A", "a. 5 NONE ANY", "a. 1 IN TYPE0 \\# 0", "",
+                  "id " + BIGNUM, "a. " + BIGNUM + " IN A 10.0.0.1"]
 
 
 def split_line(line):
@@ -920,6 +928,11 @@ def shard_name_wire(task, col):
                     judge(col, {"e": "nw", "wire": body, "current": cur}, "long", "limit-255")
                 w2 = body + b"\x3f" + b"c" * 63 + b"\xc0\x00"
                 judge(col, {"e": "nw", "wire": w2, "current": len(body)}, "long", "limit-255")
+        # every value of a length octet, followed by that many octets and the root
+        for n in range(256):
+            w = bytes([n]) + b"a" * n + b"\x00"
+            judge(col, {"e": "nw", "wire": w, "current": 0}, "long", "length-octet")
+            judge(col, {"e": "nw", "wire": b"\x01b\x00" + w, "current": 3}, "long", "length-octet")
         # pointer chains
         for depth in (1, 2, 64, 127, 200):
             w = b"\x01a\x00" + b"".join((0xC000 | (3 + 2 * (k - 1) if k else 0)).to_bytes(2, "big")
@@ -985,22 +998,29 @@ def shard_ttl_text(task, col):
     for rest in strings_upto(TTL_ALPHA, maxlen - 1):
         judge(col, {"e": "tt", "text": first + "".join(rest)}, "short", "all-strings")
     if first == TTL_ALPHA[0]:
-        for t in ["", "4294967295", "4294967296", "4294967295s", "7101w", "7102w", "9" * 30, "1" * 5000 + "w",
+        for t in ["", "4294967295", "4294967296", "4294967295s", "7101w", "7102w", "9" * 30, "1" * 5000 + "w", "1" * 5000,
                   "0x10", "1e3", " 1", "1 ", "+1", "١٢w"]:
             judge(col, {"e": "tt", "text": t}, "boundary", "listed")
 
 
 def shard_rdata_text(task, col):
-    _, cls, typ, idx, text, opts, chars, insert, double = task
+    _, cls, typ, idx, text, opts, chars, insert, double, part, nparts = task
     base = "%s#%d" % (typ, idx)
+    n = [0]
+
+    def go(t, opt, kind):
+        n[0] += 1
+        if n[0] % nparts == part:
+            judge(col, {"e": "rt", "cls": cls, "typ": typ, "text": t, "opt": opt}, base, kind)
+
     for opt in opts:
-        judge(col, {"e": "rt", "cls": cls, "typ": typ, "text": text, "opt": opt}, base, "valid")
+        go(text, opt, "valid")
     toks = _TOKEN_RE.findall(text)
     hangs = col.counts.get("hangs", 0)
     for kind, nt in token_faults(toks, TOKEN_REPL, False):
         t = " ".join(nt)
         for opt in opts:
-            judge(col, {"e": "rt", "cls": cls, "typ": typ, "text": t, "opt": opt}, base, kind)
+            go(t, opt, kind)
     if double and col.counts.get("hangs", 0) > hangs:
         col.cap("double token faults of %s skipped: a single token fault already hangs" % base)
         double = False
@@ -1009,18 +1029,19 @@ def shard_rdata_text(task, col):
             if kind == "tok-repl2":
                 t = " ".join(nt)
                 for opt in opts:
-                    judge(col, {"e": "rt", "cls": cls, "typ": typ, "text": t, "opt": opt}, base, kind)
+                    go(t, opt, kind)
     for kind, t in char_faults(text, chars, insert):
-        judge(col, {"e": "rt", "cls": cls, "typ": typ, "text": t, "opt": "org"}, base, kind)
+        go(t, "org", kind)
     for t in ["", " ", "(", ")", "( )", '"', "\\", "\\# ", "\\# 1", "\\# x", "\\# 1 0", "\\# 65536 00", "\\# 1 zz",
               "\\# 2 ( 00", "\\# -1", '""', ";", "\n", text + "\n" + text, text + " ;c", "( " + text + " )"]:
-        judge(col, {"e": "rt", "cls": cls, "typ": typ, "text": t, "opt": "org"}, base, "listed")
+        go(t, "org", "listed")
 
 
 JUNK_Q = ['""', '"" 300 IN A 10.0.0.1', '"', "(", ")", "\\", "$TTL", "$TTL x", "$ORIGIN", "$ORIGIN rel", "$INCLUDE",
           "$INCLUDE /nonexistent/verif-c04", "$GENERATE 1-2", "$GENERATE 1-2 a$ A", "$GENERATE 1-2/0 a$ A 10.0.0.$",
           "$GENERATE 1-2 a${0,1,q} A 10.0.0.$", "$GENERATE 1-2 \"\" A 10.0.0.$", "$UNICODE 2003 x \"", "$FOO", " A",
-          "x CH A 1 2", "x 4294967296 A 10.0.0.1", "x CNAME y", "@ CNAME y"]
+          "x CH A 1 2", "x 4294967296 A 10.0.0.1", "x CNAME y", "@ CNAME y", "$TTL " + BIGNUM,
+          "$GENERATE 1-2 a${" + BIGNUM + "} A 10.0.0.$"]
 assert set(JUNK_Q) <= set(JUNK_LINES)
 ZCHARS_Q = ["\\", '"', " ", "(", ";", "\n", "$", "é"]
 
@@ -1215,8 +1236,9 @@ def run(ctx):
     if want("rt"):
         for (cls, typ), forms in corpus.RDATA_TEXT.items():
             for i, text in enumerate(forms):
-                tasks.append(("rt", cls, typ, i, text, ["org"] if quick else ["org", "abs", "rel"], chars,
-                              not quick, (not quick) and len(_TOKEN_RE.findall(text)) <= 6))
+                for part in range(3):
+                    tasks.append(("rt", cls, typ, i, text, ["org"] if quick else ["org", "abs", "rel"], chars,
+                                  not quick, (not quick) and len(_TOKEN_RE.findall(text)) <= 6, part, 3))
     # --- zone text, read_rrsets, message text
     prof = text_profile(quick)
     bounds["zone_text"] = {
